@@ -32,6 +32,13 @@ func lockOracle(c *Ctx) {
 		{"syncmap-copy", "sm.w = bad; c := copy(sm)"},
 		{"syncmap-len-iter", "sm.q = bad; for k, v in sm { s := string(v) }"},
 		{"map-key", "m[bad] = 1"},
+		// no hostile object at all: the sync-map is its own key / member (rendering the key locks the map
+		// for reading while the operation holds it for writing)
+		{"syncmap-self-key-set", "sm[sm] = 1"},
+		{"syncmap-self-key-get", "x := sm[sm]"},
+		{"syncmap-self-key-delete", "delete(sm, sm)"},
+		{"syncmap-self-contains", "contains(sm, sm)"},
+		{"syncmap-key-from-sibling", "sm[[sm.a, sm]] = 2"},
 	}
 	follow, err := ugo.Compile([]byte("global sm\nsm.after = 1\nn := 0\nfor k, v in sm { n++ }\nreturn [sm.after, n > 0, len(sm) > 0]"), ugo.CompilerOptions{})
 	if err != nil {
